@@ -61,7 +61,7 @@ func c14ProbeSet(c *core.Ctx) [][]byte {
 var c14Limits = []uint32{0, 3072, 2}
 
 func opFromInt(v int) extOp {
-	return extOp{AliasBuiltin: v >= 40000, Same: v%40000 >= 20000, Dup: v%20000 >= 10000, Attach: (v % 10000) / 100, Pred: (v / 10) % 10, Aliases: v % 10}
+	return extOp{ExtXML: v >= 80000, AliasBuiltin: v%80000 >= 40000, Same: v%40000 >= 20000, Dup: v%20000 >= 10000, Attach: (v % 10000) / 100, Pred: (v / 10) % 10, Aliases: v % 10}
 }
 func opToInt(o extOp) int {
 	v := o.Attach*100 + o.Pred*10 + o.Aliases
@@ -73,6 +73,9 @@ func opToInt(o extOp) int {
 	}
 	if o.AliasBuiltin {
 		v += 40000
+	}
+	if o.ExtXML {
+		v += 80000
 	}
 	return v
 }
@@ -328,6 +331,9 @@ func c14Fresh(c *core.Ctx, args []string) int {
 		v, _ := strconv.Atoi(a)
 		op := opFromInt(v)
 		name, ext := extName(k), fmt.Sprintf(".e%d", k+1)
+		if op.ExtXML {
+			ext = ".xml"
+		}
 		if op.Dup {
 			name = "x/dup"
 		}
